@@ -80,7 +80,7 @@ func judge(r *mon.Rec, src string, code int, b []byte) ref6.Result {
 	}
 	ws, gs := res.Tree.String(), got.String()
 	if ws != gs {
-		r.Violate("C05:value-mismatch:"+kindAt(ws, gs), "library reads different values than the reference: "+tree.Diff(ws, gs), rp)
+		r.Violate("C05:value-mismatch:"+tree.KindAt(ws, gs), "library reads different values than the reference: "+tree.Diff(ws, gs), rp)
 		return res
 	}
 	paths := res.Tree.Paths()
@@ -117,30 +117,6 @@ func dedup(s []string) []string {
 	return out
 }
 
-func kindAt(a, b string) string {
-	i := 0
-	for i < len(a) && i < len(b) && a[i] == b[i] {
-		i++
-	}
-	j := min(i, len(a))
-	depth := 0
-	for k := j - 1; k >= 0; k-- {
-		switch a[k] {
-		case '}':
-			depth++
-		case '{':
-			if depth == 0 {
-				s := k
-				for s > 0 && (a[s-1] >= 'a' && a[s-1] <= 'z' || a[s-1] >= '0' && a[s-1] <= '9' || a[s-1] == '-') {
-					s--
-				}
-				return a[s:k]
-			}
-			depth--
-		}
-	}
-	return "top"
-}
 
 func trunc(s string) string {
 	if len(s) > 400 {
